@@ -362,8 +362,8 @@ pub enum Call<T> {
     S(Vec<T>, bool, Vec<T>),
     /// eval and whether it succeeded
     E(bool),
-    /// eval_partial_deriv(k) and whether it succeeded
-    D(usize, bool),
+    /// eval_partial_deriv(k), whether it succeeded, and the jacobian round it belongs to
+    D(usize, bool, usize),
 }
 
 #[derive(Clone, Debug, Default)]
@@ -376,6 +376,9 @@ pub struct FaultPlan {
     pub deriv: Vec<(usize, usize)>,
     /// restrict `at`/`persistent_from` to calls of these kinds ("S","E","D"); empty = all
     pub kinds: Vec<char>,
+    /// indices counted among S and E calls only (independent of how many derivative calls ran)
+    pub at_se: Vec<usize>,
+    pub persistent_from_se: Option<usize>,
 }
 
 impl FaultPlan {
@@ -399,6 +402,12 @@ impl FaultPlan {
                         .collect()
                 })
                 .unwrap_or_default(),
+            at_se: v
+                .get("at_se")
+                .and_then(|a| a.as_array())
+                .map(|a| a.iter().map(|x| x.as_u64().unwrap() as usize).collect())
+                .unwrap_or_default(),
+            persistent_from_se: v.get("persistent_from_se").and_then(|x| x.as_u64()).map(|x| x as usize),
             kinds: v
                 .get("kinds")
                 .and_then(|a| a.as_str())
@@ -411,6 +420,7 @@ impl FaultPlan {
 pub struct Shared<T> {
     pub log: Vec<Call<T>>,
     pub counter: usize,
+    pub counter_se: usize,
     pub round: usize,
     pub last_was_d: bool,
     pub faults: FaultPlan,
@@ -429,6 +439,7 @@ impl<T: HScalar> Wrap<T> {
         let shared = Arc::new(Mutex::new(Shared {
             log: vec![],
             counter: 0,
+            counter_se: 0,
             round: 0,
             last_was_d: false,
             faults,
@@ -444,8 +455,19 @@ impl<T: HScalar> Wrap<T> {
         )
     }
 
-    /// decide whether the call fails; returns (fail, index)
+    /// decide whether the call fails
     fn tick(&self, kind: char, k: usize) -> bool {
+        self.tick2(kind, k).0
+    }
+
+    /// (fail, jacobian round of a D call)
+    fn tick2(&self, kind: char, k: usize) -> (bool, usize) {
+        let mut round_out = 0usize;
+        let f = self.tick_inner(kind, k, &mut round_out);
+        (f, round_out)
+    }
+
+    fn tick_inner(&self, kind: char, k: usize, round_out: &mut usize) -> bool {
         let mut s = self.shared.lock().unwrap();
         if !s.enabled {
             return false;
@@ -457,8 +479,21 @@ impl<T: HScalar> Wrap<T> {
                 s.round += 1;
             }
             s.last_was_d = true;
+            *round_out = s.round - 1;
         } else {
             s.last_was_d = false;
+        }
+        if kind != 'D' {
+            let ise = s.counter_se;
+            s.counter_se += 1;
+            if s.faults.at_se.contains(&ise) {
+                return true;
+            }
+            if let Some(p) = s.faults.persistent_from_se {
+                if ise >= p {
+                    return true;
+                }
+            }
         }
         let kind_ok = s.faults.kinds.is_empty() || s.faults.kinds.contains(&kind);
         let mut fail = false;
@@ -528,18 +563,18 @@ impl<T: HScalar> SeparableNonlinearModel for Wrap<T> {
         r
     }
     fn eval_partial_deriv(&self, k: usize) -> Result<OMatrix<T, Dyn, Dyn>, HErr> {
-        let fail = self.tick('D', k);
+        let (fail, round) = self.tick2('D', k);
         if self.jitter {
             for _ in 0..(k * 7 % 5) {
                 std::thread::yield_now();
             }
         }
         if fail {
-            self.record(Call::D(k, false));
+            self.record(Call::D(k, false, round));
             return Err(HErr("injected".into()));
         }
         let r = self.inner.eval_partial_deriv(k);
-        self.record(Call::D(k, r.is_ok()));
+        self.record(Call::D(k, r.is_ok(), round));
         r
     }
 }
@@ -550,7 +585,7 @@ pub fn log_out<T: HScalar>(log: &[Call<T>]) -> Value {
             .map(|c| match c {
                 Call::S(p, ok, after) => json!(["S", slice_out(p), ok, slice_out(after)]),
                 Call::E(ok) => json!(["E", ok]),
-                Call::D(k, ok) => json!(["D", k, ok]),
+                Call::D(k, ok, round) => json!(["D", k, ok, round]),
             })
             .collect(),
     )
